@@ -107,7 +107,7 @@ impl CoseMac {
     {
         let tbm = self.tbm(external_aad);
         verify(&self.tag, &tbm)
-    }
+    }«pub open spec fn tbm_spec(self, aad: Seq<u8>) -> Seq<u8> { mac_tbm(MacContext::CoseMac, self.protected, aad, opt_bytes(self.payload)) }»
 
     /// Construct the to-be-MAC-ed data for this object. Any protected header values should be set
     /// before using this method, as should the `payload`.
@@ -115,7 +115,6 @@ impl CoseMac {
     /// # Panics
     ///
     /// This function will panic if the `payload` has not been set.
-    «pub open spec fn tbm_spec(self, aad: Seq<u8>) -> Seq<u8> { mac_tbm(MacContext::CoseMac, self.protected, aad, opt_bytes(self.payload)) }»
     fn tbm(&self, external_aad: &[u8]) ->« (r:» Vec<u8>«)
         requires self.payload is Some, prot_encodable(self.protected),
         ensures r@ == self.tbm_spec(external_aad@),» {
@@ -299,7 +298,7 @@ impl CoseMac0 {
     {
         let tbm = self.tbm(external_aad);
         verify(&self.tag, &tbm)
-    }
+    }«pub open spec fn tbm_spec(self, aad: Seq<u8>) -> Seq<u8> { mac_tbm(MacContext::CoseMac0, self.protected, aad, opt_bytes(self.payload)) }»
 
     /// Construct the to-be-MAC-ed data for this object. Any protected header values should be set
     /// before using this method, as should the `payload`.
@@ -307,7 +306,6 @@ impl CoseMac0 {
     /// # Panics
     ///
     /// This function will panic if the `payload` has not been set.
-    «pub open spec fn tbm_spec(self, aad: Seq<u8>) -> Seq<u8> { mac_tbm(MacContext::CoseMac0, self.protected, aad, opt_bytes(self.payload)) }»
     fn tbm(&self, external_aad: &[u8]) ->« (r:» Vec<u8>«)
         requires self.payload is Some, prot_encodable(self.protected),
         ensures r@ == self.tbm_spec(external_aad@),» {
